@@ -100,15 +100,20 @@ type nrLayout struct {
 	RootList   string // Query field returning the list of A
 	RootListT  string // its type text
 	RootSingle string // Query field returning one A
-	IDs        []string
-	SingleID   string
-	Path       []*nrField // the @requires path: hops, then the leaf
-	Full       *nrField
-	Validate   bool // ValidateRequiredExternalFields (+ BuildFetchReasons / PropagateFetchReasons)
-	Reasons    bool // BuildFetchReasons / PropagateFetchReasons without validation
-	SuperSDL   string
-	Describe   string
-	byCoord    map[string]*nrField
+	// RootHead: only set by the post-fault phase of the response-cache cases (cache.go): a second list root
+	// returning the first headN entities of RootList ("" = absent, nothing is rendered for it)
+	RootHead        string
+	headN           int
+	root, fullOwner int // subgraph indexes (as handed to render)
+	IDs             []string
+	SingleID        string
+	Path            []*nrField // the @requires path: hops, then the leaf
+	Full            *nrField
+	Validate        bool // ValidateRequiredExternalFields (+ BuildFetchReasons / PropagateFetchReasons)
+	Reasons         bool // BuildFetchReasons / PropagateFetchReasons without validation
+	SuperSDL        string
+	Describe        string
+	byCoord         map[string]*nrField
 }
 
 var (
@@ -226,6 +231,7 @@ func genNrLayout(r *rand.Rand) *nrLayout {
 	default:
 		l.Validate, l.Reasons = true, true
 	}
+	l.root, l.fullOwner = root, fullOwner
 	l.render(root, fullOwner)
 	return l
 }
@@ -242,7 +248,11 @@ func (l *nrLayout) onPath(f *nrField) bool {
 // render writes the supergraph, the subgraph SDLs and the planner metadata.
 func (l *nrLayout) render(root, fullOwner int) {
 	var super strings.Builder
-	fmt.Fprintf(&super, "type Query {\n  %s: %s\n  %s: %s\n}\n", l.RootList, l.RootListT, l.RootSingle, l.Types[0].Name)
+	head := ""
+	if l.RootHead != "" {
+		head = fmt.Sprintf("  %s: %s\n", l.RootHead, l.RootListT)
+	}
+	fmt.Fprintf(&super, "type Query {\n  %s: %s\n  %s: %s\n%s}\n", l.RootList, l.RootListT, l.RootSingle, l.Types[0].Name, head)
 	for _, t := range l.Types {
 		fmt.Fprintf(&super, "type %s {\n", t.Name)
 		if t.Entity {
@@ -257,10 +267,15 @@ func (l *nrLayout) render(root, fullOwner int) {
 	for si, sg := range l.Subs {
 		var sb strings.Builder
 		meta := &plan.DataSourceMetadata{}
+		sg.entities = nil
 		if si == root {
 			sg.hasQuery = true
-			fmt.Fprintf(&sb, "type Query {\n  %s: %s\n  %s: %s\n}\n", l.RootList, l.RootListT, l.RootSingle, l.Types[0].Name)
-			meta.RootNodes = append(meta.RootNodes, plan.TypeField{TypeName: "Query", FieldNames: []string{l.RootList, l.RootSingle}})
+			fmt.Fprintf(&sb, "type Query {\n  %s: %s\n  %s: %s\n%s}\n", l.RootList, l.RootListT, l.RootSingle, l.Types[0].Name, head)
+			rootFields := []string{l.RootList, l.RootSingle}
+			if l.RootHead != "" {
+				rootFields = append(rootFields, l.RootHead)
+			}
+			meta.RootNodes = append(meta.RootNodes, plan.TypeField{TypeName: "Query", FieldNames: rootFields})
 		}
 		for ti, t := range l.Types {
 			var owned, external []*nrField
@@ -568,6 +583,13 @@ func (r *nrResolver) Resolve(obj *ref.Obj, _ *gast.Definition, fd *gast.FieldDef
 		case l.RootSingle:
 			return &ref.Obj{Type: l.Types[0].Name, ID: l.SingleID}, nil
 		}
+		if l.RootHead != "" && fd.Name == l.RootHead {
+			out := make([]any, l.headN)
+			for i := range out {
+				out[i] = &ref.Obj{Type: l.Types[0].Name, ID: l.IDs[i]}
+			}
+			return out, nil
+		}
 		return nil, nil
 	}
 	key := fed.ProvKey(obj.Type, obj.ID, fd.Name, nil)
@@ -840,6 +862,8 @@ type nrTransport struct {
 	mu      sync.Mutex
 	log     []*nrRequest
 	faults  *nrFaults
+	// cacheable: every answer carries a storable Cache-Control header (response-cache cases only)
+	cacheable bool
 }
 
 func nrResize(resp []byte, more bool) []byte {
@@ -874,7 +898,7 @@ func (t *nrTransport) RoundTrip(req *http.Request) (*http.Response, error) {
 		return nil, fmt.Errorf("no such subgraph %q", req.URL.Host)
 	}
 	t.mu.Lock()
-	faults := t.faults
+	faults, cacheable := t.faults, t.cacheable
 	t.mu.Unlock()
 	resp, rec := srv.handle(body, faults)
 	rec.Arrival = t.clock.Add(1)
@@ -901,6 +925,8 @@ func (t *nrTransport) RoundTrip(req *http.Request) (*http.Response, error) {
 				resp = []byte(`{"data":null,"errors":[{"message":"injected failure"}]}`)
 			case "fewer-entities", "more-entities":
 				resp = nrResize(resp, k == "more-entities")
+			case "fewer-entities-first": // response-cache cases only: the FIRST entity is left out
+				resp = nrDropFirst(resp)
 			}
 		}
 	}
@@ -912,7 +938,11 @@ func (t *nrTransport) RoundTrip(req *http.Request) (*http.Response, error) {
 	if terr != nil {
 		return nil, terr
 	}
-	return &http.Response{StatusCode: status, Status: fmt.Sprintf("%d", status), Body: io.NopCloser(bytes.NewReader(resp)), Header: http.Header{"Content-Type": []string{"application/json"}}, ContentLength: int64(len(resp)), Request: req}, nil
+	hdr := http.Header{"Content-Type": []string{"application/json"}}
+	if cacheable {
+		hdr["Cache-Control"] = []string{"public, max-age=60"}
+	}
+	return &http.Response{StatusCode: status, Status: fmt.Sprintf("%d", status), Body: io.NopCloser(bytes.NewReader(resp)), Header: hdr, ContentLength: int64(len(resp)), Request: req}, nil
 }
 
 type nrRig struct {
@@ -990,7 +1020,9 @@ type nrRun struct {
 }
 
 // exec runs one execution under the given faults with a generous watchdog (nil = did not return).
-func (g *nrRig) exec(text string, faults *nrFaults) *nrRun {
+func (g *nrRig) exec(text string, faults *nrFaults) *nrRun { return g.execWith(text, faults) }
+
+func (g *nrRig) execWith(text string, faults *nrFaults, opts ...engine.ExecutionOptions) *nrRun {
 	g.t.mu.Lock()
 	g.t.log, g.t.faults = nil, faults
 	g.t.mu.Unlock()
@@ -1007,7 +1039,7 @@ func (g *nrRig) exec(text string, faults *nrFaults) *nrRun {
 			done <- out
 		}()
 		w := graphql.NewEngineResultWriter()
-		out.Err = g.eng.Execute(ctx, &graphql.Request{Query: text, Variables: []byte(`{}`)}, &w)
+		out.Err = g.eng.Execute(ctx, &graphql.Request{Query: text, Variables: []byte(`{}`)}, &w, opts...)
 		out.Raw = w.String()
 	}()
 	var out *nrRun
@@ -1572,6 +1604,11 @@ func (p c07) runNested(c *fw.Ctx, idx int) fw.Result {
 	}
 	res.Keys = keys
 	res.Nontrivial = len(keys) > 0
+	// option dimension: every fourth case also runs the post-fault phase with a response cache (cache.go); the
+	// phase comes after everything else and uses a gateway of its own, so the part above is the same in all cases
+	if (idx-firstKindCases(c.Tier))%4 == 3 {
+		p.nestedPostFault(&res, l)
+	}
 	return res
 }
 
